@@ -64,6 +64,14 @@ def handleCli (args : List String) : Option String :=
     | some l => s!"ok {exitStatus l}"
     | none => "bad-args"
   | ["has_png_ext", n] => some (if hasPngExt n then "ok 1" else "ok 0")
+  | ["cli_route", pretend, stdout, out, dir, preserve, name] => some <|
+    let opt (s : String) : Option String := if s == "-" then none else some s
+    let d : DestFlags := { pretend := pretend == "1", stdout := stdout == "1", out := opt out, dir := opt dir,
+                           preserve := preserve == "1" }
+    match fileOut d name with
+    | .none => "ok none"
+    | .stdout => "ok stdout"
+    | .path p pr => s!"ok path {p.getD "-"} {if pr then 1 else 0}"
   | _ => none
 
 end Driver
